@@ -183,6 +183,15 @@ var slices = map[string]slice{
 		tops: []time.Duration{100 * time.Millisecond, 600 * time.Millisecond},
 		fops: []fOp{{kind: "rem", prefix: "/a/b", face: fwsim.N4}},
 	},
+	// a handful of interacting ops (two consumers on one name, their retransmissions with the
+	// same nonce, Data by name and by token, clock steps on both sides of the suppression window):
+	// explored DEEP and WITHOUT state de-duplication
+	"tiny": {
+		routes: []fwsim.Route{{Prefix: "/a", Face: fwsim.N2, Cost: 1}, {Prefix: "/a", Face: fwsim.N3, Cost: 2}},
+		iops:   []iOp{{face: fwsim.L1, name: "/a", nonce: "fresh", hl: -1}, {face: fwsim.N4, name: "/a", nonce: "fresh", hl: -1}, {face: fwsim.N4, name: "/a", nonce: "dup", hl: -1}},
+		dops:   []dOp{{fwsim.N2, "/a", "none"}, {fwsim.N2, "/a", "echo0"}},
+		tops:   []time.Duration{100 * time.Millisecond, 600 * time.Millisecond},
+	},
 	// consumer-chosen next hop on a face with local fields (L1) and on one without (N3):
 	// NextHopFaceId naming N2, the arrival face itself, a face that does not exist
 	"nexthop": {
@@ -655,9 +664,19 @@ func configs(th bool) []explore.Config {
 		add("hint", "br", "cs1", "ht regions=/r,/r/site", 4)
 		add("hop", "br", "cs0", "ht", 5)
 		add("hop", "mc", "cs1", "tree", 5)
+		nd := func(label, b string, depth int) {
+			c = append(c, explore.Config{Name: label + " (no dedup) " + b, BuildName: b, MaxDepth: devDepth(depth), MaxDev: -1, NoDedup: true})
+		}
+		nd("audit", "nexthop br cs1 tree", 3)
+		nd("history search", "tiny br cs0 tree", 6)
+		nd("history search", "tiny mc cs1 ht", 6)
 		add("route", "br", "cs0", "tree", 5)
 		add("route", "mc", "cs0", "ht", 4)
 		return c
+	}
+	c = append(c, explore.Config{Name: "audit (no dedup) nexthop br cs1 tree", BuildName: "nexthop br cs1 tree", MaxDepth: 4, MaxDev: -1, NoDedup: true})
+	for _, b := range []string{"tiny br cs0 tree", "tiny mc cs1 ht", "tiny mc cs0 tree", "tiny br cs1 ht"} {
+		c = append(c, explore.Config{Name: "history search (no dedup) " + b, BuildName: b, MaxDepth: 7, MaxDev: -1, NoDedup: true})
 	}
 	for _, st := range []string{"br", "mc"} {
 		for _, cs := range []string{"cs0", "cs1"} {
